@@ -23,13 +23,13 @@ const (
 )
 
 type Layout struct {
-	Size        uint64
+	Size         uint64
 	NBlockBitmap uint64
-	BlockBitmap uint64 // first block of the block bitmap
-	InodeBitmap uint64
-	InodeStart  uint64
-	DataStart   uint64
-	NInode      uint64
+	BlockBitmap  uint64 // first block of the block bitmap
+	InodeBitmap  uint64
+	InodeStart   uint64
+	DataStart    uint64
+	NInode       uint64
 }
 
 func LayoutFor(size uint64) Layout {
